@@ -55,6 +55,15 @@ def driverStep (d : DState) (line : SExp) : DState × SExp :=
     | none => (d, .atom "bad-op")
     | some disk => let d' := { d with s := opened disk }; (d', .list (.atom "ok" :: snapshot d'))
   | .list [.atom "mask", .atom "outlines"] => ({ d with maskOutlines := true }, .atom "ok")
+  | .list (.atom "seq" :: lines) =>
+    -- several model operations for one operation of the implementation (a reload = read + new unicodes + new content):
+    -- all or nothing, one snapshot
+    match lines.mapM parseOp with
+    | none => (d, .atom "bad-op")
+    | some ops =>
+      match ops.foldlM (fun s op => match step s op with | .ok s' => some s' | .error _ => none) d.s with
+      | some s' => let d' := { d with s := s' }; (d', .list (.atom "ok" :: snapshot d'))
+      | none => (d, .list (err "KeyError" :: snapshot d))
   | _ =>
     match parseOp line with
     | none => (d, .atom "bad-op")
